@@ -1,1 +1,82 @@
-fn main() { println!("agsim skeleton"); }
+mod corpus;
+mod driver;
+mod edit_world;
+mod hashseam;
+mod rng;
+mod shrink;
+
+use driver::*;
+
+fn sim_for(id: &str) -> Box<dyn Simulation> {
+  match id {
+    "C10" => Box::new(edit_world::EditSim),
+    _ => {
+      eprintln!("HARNESS-ERROR: no simulation for property {id}");
+      std::process::exit(2)
+    }
+  }
+}
+
+fn opt(args: &[String], name: &str) -> Option<String> {
+  let p = format!("--{name}=");
+  args.iter().find_map(|a| a.strip_prefix(&p).map(|s| s.to_string()))
+}
+
+fn main() {
+  let args: Vec<String> = std::env::args().collect();
+  if args.len() < 3 {
+    eprintln!("usage: agsim check <ID> [--tier=quick|thorough] [--seed=N] [--workers=N] [--runs=N] [--secs=N] | agsim replay <ID> <file> | agsim worker <ID> ...");
+    std::process::exit(2);
+  }
+  let cmd = args[1].as_str();
+  let id = args[2].as_str();
+  let sim = sim_for(id);
+  let rest = &args[3..];
+  let env_seed = std::env::var("VERIF_SEED").ok().and_then(|s| s.trim().parse::<u64>().ok());
+  let seed = opt(rest, "seed").and_then(|s| s.parse().ok()).or(env_seed).unwrap_or(DEFAULT_SEED);
+  let env_tier = std::env::var("VERIF_TIER").ok().filter(|t| t == "quick" || t == "thorough");
+  let tier = opt(rest, "tier").or(env_tier).unwrap_or_else(|| "quick".into());
+  match cmd {
+    "check" => {
+      let code = check_main(
+        &*sim,
+        CheckArgs {
+          tier,
+          seed,
+          workers: opt(rest, "workers").and_then(|s| s.parse().ok()).unwrap_or(16),
+          runs: opt(rest, "runs").and_then(|s| s.parse().ok()),
+          secs: opt(rest, "secs").and_then(|s| s.parse().ok()),
+          no_evidence: rest.iter().any(|a| a == "--no-evidence"),
+        },
+      );
+      std::process::exit(code);
+    }
+    "worker" => {
+      let only = opt(rest, "only").map(|s| s.split(',').filter_map(|x| x.parse().ok()).collect::<Vec<u64>>());
+      worker_main(
+        &*sim,
+        WorkerArgs {
+          seed,
+          tier,
+          from: opt(rest, "from").and_then(|s| s.parse().ok()).unwrap_or(0),
+          step: opt(rest, "step").and_then(|s| s.parse().ok()).unwrap_or(1),
+          max_runs: opt(rest, "max-runs").and_then(|s| s.parse().ok()).unwrap_or(1),
+          secs: opt(rest, "secs").and_then(|s| s.parse().ok()).unwrap_or(60),
+          det_per_worker: opt(rest, "det").and_then(|s| s.parse().ok()).unwrap_or(0),
+          only,
+        },
+      );
+    }
+    "replay" => {
+      let Some(path) = rest.first() else {
+        eprintln!("usage: agsim replay <ID> <file>");
+        std::process::exit(2);
+      };
+      std::process::exit(replay_main(&*sim, path));
+    }
+    _ => {
+      eprintln!("unknown command {cmd}");
+      std::process::exit(2);
+    }
+  }
+}
